@@ -1007,16 +1007,23 @@ def client_corpus(tier, seed):
 
 # ============================================================================ two-level declarations + cfg macro chain (C15, C16)
 
+def wd_names(it):
+    """names of the two archetypes and of each archetype's two components (alternatives reuse a name)"""
+    an = {1: "Aa", 2: "Aa" if it.get("sameA") else "Ab"}
+    cn = {1: {1: "Ca", 2: "Ca" if it.get("sameC1") else "Cb"}, 2: {1: "Ca", 2: "Ca" if it.get("sameC2") else "Cb"}}
+    return an, cn
+
 def wd_body(it, realise=None, twin=False):
     asg = it["asg"]
     parts = []
+    an, cnn = wd_names(it)
     def en(x):
         return all(asg[i] for i, on in enumerate(x["preds"]) if on)
-    for name, a in (("Aa", it["a1"]), ("Ab", it["a2"])):
+    for ai, name, a in ((1, an[1], it["a1"]), (2, an[2], it["a2"])):
         if twin and not en(a):
             continue
         comps = []
-        for cname, c in (("Ca", a["c1"]), ("Cb", a["c2"])):
+        for cname, c in ((cnn[ai][1], a["c1"]), (cnn[ai][2], a["c2"])):
             if twin and not en(c):
                 continue
             comps.append("%s %s %s" % ("" if twin else pred_attrs(c["preds"], realise, asg), "#[component_id(%d)]" % c["id"] if c["id"] >= 0 else "", cname))
@@ -1058,8 +1065,13 @@ def wdecl(tier, seed):
     rlib, deps = build_gecs((), False)
     lab = build_macrolab()
     psets = "ThreePredSets" if tier == "quick" else "FourPredSets"
-    items, st = tlc_lines("WorldDeclMC", "SPECIFICATION Spec\nCONSTANTS\n  Preds <- TwoPreds\n  ArchIds <- ArchIdChoices\n  CompIds <- CompIdChoices\n  PredSets <- %s\nINVARIANTS Export\nCHECK_DEADLOCK FALSE\n" % psets, "WDECL", timeout=6000)
-    items = [it for it in items if not it["degenerate"]]
+    items, st = tlc_lines("WorldDeclMC", "SPECIFICATION Spec\nCONSTANTS\n  Preds <- TwoPreds\n  ArchIds <- ArchIdChoices\n  CompIds <- CompIdChoices\n  PredSets <- %s\n  SameChoices <- NoSame\nINVARIANTS Export\nCHECK_DEADLOCK FALSE\n" % psets, "WDECL", timeout=6000)
+    # alternatives: a later item may carry the name of an earlier one under another predicate
+    alt, st2 = tlc_lines("WorldDeclMC", "SPECIFICATION Spec\nCONSTANTS\n  Preds <- TwoPreds\n  ArchIds <- NoIds\n  CompIds <- %s\n  PredSets <- ThreePredSets\n  SameChoices <- BOOLEAN\nINVARIANTS Export\nCHECK_DEADLOCK FALSE\n" % ("NoIds" if tier == "quick" else "CompIdChoices"), "WDECL", timeout=6000)
+    alt = [it for it in alt if (it["sameA"] or it["sameC1"] or it["sameC2"]) and not it["clash"]]
+    for k in ("distinct", "generated"):
+        st[k] = st.get(k, 0) + st2.get(k, 0)
+    items = [it for it in items + alt if not it["degenerate"]]
     reqs, index = [], []
     chains = {}
     for ii, it in enumerate(items):
@@ -1077,13 +1089,14 @@ def wdecl(tier, seed):
         parts = list(ex.map(lambda i: run_lab(lab, reqs[i * per:(i + 1) * per]) if reqs[i * per:(i + 1) * per] else [], range(chunks)))
     results = [r for p in parts for r in p]
     violations = []
-    stats = {"declarations": len(items), "chains": len(chains), "errors": 0, "with_disabled": 0, "pred_on_arch_and_comp": 0}
-    names = {1: "Aa", 2: "Ab"}
-    cn = {1: "Ca", 2: "Cb"}
+    stats = {"declarations": len(items), "chains": len(chains), "errors": 0, "with_disabled": 0, "pred_on_arch_and_comp": 0,
+             "same_name_alternatives": sum(1 for it in items if it.get("sameA") or it.get("sameC1") or it.get("sameC2"))}
     for (kind, ii), res in zip(index, results):
         it = items[ii]
+        names, cnn = wd_names(it)
         deco = any(any(x["preds"]) for a in (it["a1"], it["a2"]) for x in (a, a["c1"], a["c2"]))
-        ev = {"a1": it["a1"], "a2": it["a2"], "asg": it["asg"], "order": it["order"], "expected": {"ok": it["ok"], "err": it["err"], "archs": it["archs"]}, "generator": res}
+        ev = {"a1": it["a1"], "a2": it["a2"], "asg": it["asg"], "order": it["order"], "same": [it.get("sameA"), it.get("sameC1"), it.get("sameC2")],
+              "expected": {"ok": it["ok"], "err": it["err"], "archs": it["archs"]}, "generator": res}
         if kind == "C":
             if res["res"] != "ok":
                 msg = "chain generation failed: %s" % res.get("msg")
@@ -1106,7 +1119,7 @@ def wdecl(tier, seed):
                 msg = "declaration rejected (%s), expected ids %s" % (res.get("msg"), it["archs"])
             else:
                 got = [(a["name"], a["id"], [(c[0], c[1]) for c in a["comps"]]) for a in res["world"]["archs"]]
-                want = [(names[a["which"]], a["id"], [(cn[c["which"]], c["id"]) for c in a["comps"]]) for a in it["archs"]]
+                want = [(names[a["which"]], a["id"], [(cnn[a["which"]][c["which"]], c["id"]) for c in a["comps"]]) for a in it["archs"]]
                 if len(want) < 2 or any(len(a["comps"]) < 2 for a in it["archs"]):
                     stats["with_disabled"] += 1
                 if got != want:
@@ -1120,14 +1133,19 @@ def wdecl(tier, seed):
             violations.append({"tags": ["C16", "C15"] if deco else ["C15"], "what": "two-level declaration: " + msg, "at": ii, "event": ev, "origin": {"engine": "wdecl-lib"}})
     # end to end: the REAL macro chain with --cfg flags (and cfg(all())/cfg(any())), decorated vs expected ids
     rnd = random.Random(seed)
-    cand = [it for it in items if it["ok"] and len(it["order"]) == 2 and it["archs"]]
+    cand = [it for it in items if it["ok"] and len(it["order"]) == 2 and it["archs"] and not (it.get("sameA") or it.get("sameC1") or it.get("sameC2"))]
     sample = rnd.sample(cand, min(10 if tier == "quick" else 60, len(cand)))
+    cand2 = [it for it in items if it["ok"] and len(it["order"]) == 2 and it["archs"] and (it.get("sameA") or it.get("sameC1") or it.get("sameC2"))]
+    sample += rnd.sample(cand2, min(4 if tier == "quick" else 30, len(cand2)))
     def run_job(job):
         it, realise = job
         body = wd_body(it, "const" if realise == "const" else None)
         lines = [IDS_PRELUDE, "ecs_world! { %s }" % body, "fn main() {"]
         want = []
+        names, cnn = wd_names(it)
+        cn = None
         for a in it["archs"]:
+            cn = cnn[a["which"]]
             an = names[a["which"]]
             lines.append('    println!("%s {}", %s::ARCHETYPE_ID);' % (an, an))
             want.append("%s %d" % (an, a["id"]))
